@@ -142,12 +142,15 @@ def step (h : Heap β) (t : Nat) : CellOp → Outcome Out × Heap β
     | (.err e, h') => (.err e, h')
     | (.panic p, h') => (.panic p, h')
   | .newRef =>
-    -- n := NewCell(); return n, c.AddRef(n)
-    let h0 := h ++ [freshCell I]
-    match addRefH h0 t h.length with
-    | (.ok _, h') => (.ok (.nat h.length), h')
-    | (.err e, h') => (.err e, h')
-    | (.panic p, h') => (.panic p, h')
+    -- n := NewCell(); return n, c.AddRef(n)   (the new cell exists even when AddRef fails)
+    match h[t]? with
+    | none => (.err errNoCell, h)
+    | some _ =>
+      let h0 := h ++ [freshCell I]
+      match addRefH h0 t h.length with
+      | (.ok _, h') => (.ok (.nat h.length), h')
+      | (.err e, h') => (.err e, h')
+      | (.panic p, h') => (.panic p, h')
   | .nextRef =>
     match nextRefH I h t with
     | (.ok id, h') => (.ok (.nat id), h')
